@@ -1,0 +1,899 @@
+//! Verification-only scheduling shim, compiled only with `--cfg humphrey_verif`; switched in with `--cfg humphrey_verif_shim`.
+//!
+//! With `--cfg humphrey_verif_shim`, `pool.rs` and `recovery.rs` take `Mutex`, `channel`/`Sender`/`Receiver`,
+//! `Builder`/`spawn`/`JoinHandle` from here instead of from `std`. The wrappers forward straight to the
+//! `std` types unless the calling thread belongs to an *exploration* started with [`explore`]. Inside an
+//! exploration exactly one controlled thread runs at a time: every wrapper operation first hands a token to the
+//! thread picked by the caller-supplied chooser, blocking operations (`lock`, `recv`, `join`) are done as
+//! "try, otherwise mark blocked on the resource and hand the token on", and a state with no runnable thread
+//! is reported as a deadlock instead of hanging. Real OS threads are kept, so unwinding, `thread::panicking()`
+//! and `PanicMarker::drop` run exactly as in production.
+//!
+//! Nothing in this file is reachable without the flags.
+
+use std::any::Any;
+use std::cell::RefCell;
+use std::io;
+use std::ops::{Deref, DerefMut};
+use std::panic::{catch_unwind, resume_unwind, AssertUnwindSafe};
+use std::sync::atomic::{AtomicBool, AtomicUsize, Ordering};
+use std::sync::mpsc as std_mpsc;
+use std::sync::{Arc, Condvar, LockResult, PoisonError, TryLockError, TryLockResult};
+use std::thread as std_thread;
+use std::time::{Duration, Instant};
+
+pub use std::sync::mpsc::{RecvError, RecvTimeoutError, SendError, TryRecvError};
+
+type StdMutex<T> = std::sync::Mutex<T>;
+type StdGuard<'a, T> = std::sync::MutexGuard<'a, T>;
+
+// ------------------------------------------------------------------------------------------------
+// scheduler
+// ------------------------------------------------------------------------------------------------
+
+/// What a controlled thread is blocked on.
+#[derive(Clone, Copy, Debug, PartialEq, Eq)]
+pub enum Res {
+    /// A shim mutex (identified by address).
+    Mutex(usize),
+    /// A shim channel (identified by address of its shared part).
+    Chan(usize),
+    /// Termination of controlled thread `tid`.
+    Join(usize),
+    /// The harness-level condition used by [`block_until`] / [`notify`].
+    Cond,
+    /// The body has returned and waits for every other thread to finish or block.
+    Drain,
+}
+
+/// Scheduling state of a controlled thread.
+#[derive(Clone, Copy, Debug, PartialEq, Eq)]
+pub enum TState {
+    /// Can run when given the token.
+    Runnable,
+    /// Waits for a resource.
+    Blocked(Res),
+    /// Waits for a resource, but with a timeout: woken (with the timeout result) only when nothing else can run.
+    TimedBlocked(Res),
+    /// The thread's closure has returned or unwound.
+    Finished,
+}
+
+/// A controlled thread as seen at the end of an execution.
+#[derive(Clone, Debug)]
+pub struct ThreadInfo {
+    /// Controlled thread id (0 is the body).
+    pub tid: usize,
+    /// The name given through `Builder::name`, if any.
+    pub name: Option<String>,
+    /// Final state.
+    pub state: TState,
+    /// The last shim operation the thread performed or is blocked in.
+    pub last_op: &'static str,
+    /// Whether the thread ended by unwinding.
+    pub panicked: bool,
+}
+
+/// A scheduling decision offered to the chooser: more than one thread could run next.
+pub struct Choice<'a> {
+    /// Runnable controlled threads, ascending.
+    pub runnable: &'a [usize],
+    /// The thread that ran up to this point, if it can continue (choosing another one is a pre-emption).
+    pub current: Option<usize>,
+    /// Index of this choice point within the execution.
+    pub index: usize,
+}
+
+/// One recorded choice point.
+#[derive(Clone, Debug)]
+pub struct Step {
+    /// Runnable controlled threads, ascending.
+    pub runnable: Vec<usize>,
+    /// The running thread if it could have continued.
+    pub current: Option<usize>,
+    /// The thread that was given the token.
+    pub chosen: usize,
+    /// The operation the running thread was about to perform.
+    pub op: &'static str,
+}
+
+/// How an execution ended.
+#[derive(Clone, Debug, PartialEq, Eq)]
+pub enum End {
+    /// The body returned and every other thread finished or blocked for good.
+    Done,
+    /// The body panicked (message), then the other threads were drained as for `Done`.
+    BodyPanicked(String),
+    /// No thread could run while the body had not returned.
+    Deadlock,
+    /// More than `max_steps` scheduling steps.
+    StepLimit,
+    /// The chooser picked a thread that cannot run (schedule does not replay).
+    BadChoice,
+    /// Nothing happened for the wall-clock limit: some thread blocks outside the shim's control.
+    Stuck,
+}
+
+/// Result of [`explore`].
+pub struct Outcome<R> {
+    /// How the execution ended.
+    pub end: End,
+    /// The body's return value if it returned.
+    pub value: Option<R>,
+    /// Every controlled thread with its final state.
+    pub threads: Vec<ThreadInfo>,
+    /// The choice points, in order.
+    pub trace: Vec<Step>,
+    /// Scheduling steps taken (choice points and forced switches).
+    pub steps: usize,
+    /// Controlled OS threads that had not exited shortly after the execution was torn down.
+    pub leaked: usize,
+}
+
+type Chooser = Box<dyn FnMut(&Choice) -> usize + Send>;
+
+struct TRec {
+    cv: Arc<Condvar>,
+    name: Option<String>,
+    state: TState,
+    last_op: &'static str,
+    panicked: bool,
+    timed_out: bool,
+}
+
+struct State {
+    threads: Vec<TRec>,
+    current: usize,
+    end: Option<End>,
+    steps: usize,
+    max_steps: usize,
+    trace: Vec<Step>,
+    chooser: Chooser,
+    drained: bool,
+    timeouts_left: usize,
+    last_progress: Instant,
+}
+
+/// One exploration (one execution of a body under one schedule).
+pub struct Sched {
+    st: StdMutex<State>,
+    cv: Condvar,
+    abort: AtomicBool,
+    live: AtomicUsize,
+}
+
+struct VerifAbort;
+
+thread_local! {
+    static CUR: RefCell<Option<(Arc<Sched>, usize)>> = RefCell::new(None);
+}
+
+fn ctl() -> Option<(Arc<Sched>, usize)> {
+    CUR.try_with(|c| match &*c.borrow() {
+        Some((s, t)) if !s.abort.load(Ordering::SeqCst) => Some((s.clone(), *t)),
+        _ => None,
+    })
+    .ok()
+    .flatten()
+}
+
+fn lock_state(s: &Sched) -> StdGuard<'_, State> {
+    s.st.lock().unwrap_or_else(|e| e.into_inner())
+}
+
+impl Sched {
+    /// Leaves the exploration from inside a shim operation of a thread that is being torn down.
+    fn leave(&self, tid: usize) {
+        if tid == 0 && lock_state(self).end.as_ref().map(|e| *e != End::Done && !matches!(e, End::BodyPanicked(_))).unwrap_or(false) {
+            // abnormal end: the body is inside the code under test (possibly inside a `Drop`); it is abandoned
+            loop {
+                std_thread::park();
+            }
+        }
+        if std_thread::panicking() {
+            return; // continue unwinding in pass-through mode
+        }
+        resume_unwind(Box::new(VerifAbort));
+    }
+
+    fn finish(&self, st: &mut State, end: End) {
+        if st.end.is_none() {
+            st.end = Some(end);
+        }
+        self.abort.store(true, Ordering::SeqCst);
+        for t in st.threads.iter() {
+            t.cv.notify_all();
+        }
+        self.cv.notify_all();
+    }
+
+    /// Gives the token to the next thread. Called with the state locked by the thread that holds the token.
+    fn pick_next(&self, st: &mut State, me: usize, op: &'static str) {
+        st.last_progress = Instant::now();
+        let mut runnable: Vec<usize> = (0..st.threads.len()).filter(|&i| st.threads[i].state == TState::Runnable).collect();
+        if runnable.is_empty() {
+            // timeouts fire only when nothing else can happen
+            if st.timeouts_left > 0 {
+                if let Some(i) = (0..st.threads.len()).find(|&i| matches!(st.threads[i].state, TState::TimedBlocked(_))) {
+                    st.timeouts_left -= 1;
+                    st.threads[i].state = TState::Runnable;
+                    st.threads[i].timed_out = true;
+                    runnable.push(i);
+                }
+            }
+        }
+        if runnable.is_empty() {
+            if st.threads[0].state == TState::Blocked(Res::Drain) {
+                st.threads[0].state = TState::Runnable;
+                st.drained = true;
+                st.current = 0;
+                st.threads[0].cv.notify_all();
+            } else {
+                self.finish(st, End::Deadlock);
+            }
+            return;
+        }
+        st.steps += 1;
+        if st.steps > st.max_steps {
+            self.finish(st, End::StepLimit);
+            return;
+        }
+        let current = if st.threads[me].state == TState::Runnable { Some(me) } else { None };
+        let chosen = if runnable.len() == 1 {
+            runnable[0]
+        } else {
+            let index = st.trace.len();
+            let c = (st.chooser)(&Choice { runnable: &runnable, current, index });
+            if !runnable.contains(&c) {
+                self.finish(st, End::BadChoice);
+                return;
+            }
+            st.trace.push(Step { runnable: runnable.clone(), current, chosen: c, op });
+            c
+        };
+        st.current = chosen;
+        if chosen != me {
+            st.threads[chosen].cv.notify_all();
+        }
+    }
+
+    /// The calling thread (holding the token) takes `new_state`, the token goes to the chooser's pick, and the
+    /// call returns when this thread holds the token again. Returns true if it was woken by a timeout.
+    fn switch(&self, me: usize, new_state: TState, op: &'static str) -> bool {
+        let mut st = lock_state(self);
+        if self.abort.load(Ordering::SeqCst) {
+            drop(st);
+            self.leave(me);
+            return false;
+        }
+        st.threads[me].state = new_state;
+        st.threads[me].last_op = op;
+        st.threads[me].timed_out = false;
+        self.pick_next(&mut st, me, op);
+        let cv = st.threads[me].cv.clone();
+        loop {
+            if self.abort.load(Ordering::SeqCst) {
+                drop(st);
+                self.leave(me);
+                return false;
+            }
+            if st.current == me && st.threads[me].state == TState::Runnable {
+                return st.threads[me].timed_out;
+            }
+            st = cv.wait(st).unwrap_or_else(|e| e.into_inner());
+        }
+    }
+
+    fn wake(&self, res: Res) {
+        let mut st = lock_state(self);
+        for t in st.threads.iter_mut() {
+            if t.state == TState::Blocked(res) || t.state == TState::TimedBlocked(res) {
+                t.state = TState::Runnable;
+                t.timed_out = false;
+            }
+        }
+    }
+
+    fn register(&self, name: Option<String>) -> usize {
+        let mut st = lock_state(self);
+        st.threads.push(TRec { cv: Arc::new(Condvar::new()), name, state: TState::Runnable, last_op: "start", panicked: false, timed_out: false });
+        self.live.fetch_add(1, Ordering::SeqCst);
+        st.threads.len() - 1
+    }
+
+    fn is_finished(&self, tid: usize) -> bool {
+        lock_state(self).threads[tid].state == TState::Finished
+    }
+
+    /// First wait of a freshly spawned controlled thread. False if the exploration ended before it ever ran.
+    fn wait_first(&self, me: usize) -> bool {
+        let mut st = lock_state(self);
+        let cv = st.threads[me].cv.clone();
+        loop {
+            if self.abort.load(Ordering::SeqCst) {
+                return false;
+            }
+            if st.current == me && st.threads[me].state == TState::Runnable {
+                return true;
+            }
+            st = cv.wait(st).unwrap_or_else(|e| e.into_inner());
+        }
+    }
+
+    fn snapshot(st: &State) -> Vec<ThreadInfo> {
+        st.threads.iter().enumerate().map(|(tid, t)| ThreadInfo { tid, name: t.name.clone(), state: t.state, last_op: t.last_op, panicked: t.panicked }).collect()
+    }
+}
+
+/// Marks a controlled thread finished when its closure returns or unwinds.
+struct ExitGuard(Arc<Sched>, usize);
+
+impl Drop for ExitGuard {
+    fn drop(&mut self) {
+        let s = &self.0;
+        if !s.abort.load(Ordering::SeqCst) {
+            let mut st = lock_state(s);
+            if !s.abort.load(Ordering::SeqCst) {
+                st.threads[self.1].state = TState::Finished;
+                st.threads[self.1].panicked = std_thread::panicking();
+                let res = Res::Join(self.1);
+                for t in st.threads.iter_mut() {
+                    if t.state == TState::Blocked(res) {
+                        t.state = TState::Runnable;
+                    }
+                }
+                if self.1 != 0 {
+                    s.pick_next(&mut st, self.1, "exit");
+                }
+            }
+        }
+        let _ = CUR.try_with(|c| *c.borrow_mut() = None);
+        s.live.fetch_sub(1, Ordering::SeqCst);
+    }
+}
+
+/// `None` means the exploration was torn down while waiting: the caller falls back to the `std` operation.
+fn blocking_op<R>(s: &Sched, me: usize, res: Res, op: &'static str, mut attempt: impl FnMut() -> Option<R>) -> Option<R> {
+    s.switch(me, TState::Runnable, op);
+    loop {
+        if s.abort.load(Ordering::SeqCst) {
+            return None;
+        }
+        if let Some(r) = attempt() {
+            return Some(r);
+        }
+        s.switch(me, TState::Blocked(res), op);
+    }
+}
+
+/// Runs `body` as controlled thread 0 of a new exploration, under the schedule picked by `chooser`, and returns
+/// when the body has returned and every other controlled thread has finished or blocked for good (or when the
+/// execution deadlocks, exceeds `max_steps`, or makes no progress for `stuck_after`).
+pub fn explore<R, F>(chooser: Chooser, max_steps: usize, stuck_after: Duration, body: F) -> Outcome<R>
+where
+    F: FnOnce() -> R + Send + 'static,
+    R: Send + 'static,
+{
+    let sched = Arc::new(Sched {
+        st: StdMutex::new(State {
+            threads: Vec::new(),
+            current: 0,
+            end: None,
+            steps: 0,
+            max_steps,
+            trace: Vec::new(),
+            chooser,
+            drained: false,
+            timeouts_left: 64,
+            last_progress: Instant::now(),
+        }),
+        cv: Condvar::new(),
+        abort: AtomicBool::new(false),
+        live: AtomicUsize::new(0),
+    });
+    let tid0 = sched.register(Some("body".into()));
+    debug_assert_eq!(tid0, 0);
+    let value: Arc<StdMutex<Option<R>>> = Arc::new(StdMutex::new(None));
+    let s2 = sched.clone();
+    let v2 = value.clone();
+    let handle = std_thread::Builder::new()
+        .name("verif-body".into())
+        .spawn(move || {
+            CUR.with(|c| *c.borrow_mut() = Some((s2.clone(), 0)));
+            let _guard = ExitGuard(s2.clone(), 0);
+            let r = catch_unwind(AssertUnwindSafe(body));
+            let end = match r {
+                Ok(v) => {
+                    *v2.lock().unwrap_or_else(|e| e.into_inner()) = Some(v);
+                    End::Done
+                }
+                Err(p) => {
+                    if p.is::<VerifAbort>() {
+                        return;
+                    }
+                    End::BodyPanicked(panic_text(&p))
+                }
+            };
+            if s2.abort.load(Ordering::SeqCst) {
+                return;
+            }
+            // let everything else run until nothing can
+            s2.switch(0, TState::Blocked(Res::Drain), "drain");
+            let mut st = lock_state(&s2);
+            if st.drained && st.end.is_none() {
+                st.threads[0].state = TState::Finished;
+                s2.finish(&mut st, end);
+            }
+        })
+        .expect("verif body thread");
+    // wait for the end of the execution
+    let (end, threads, trace, steps) = {
+        let mut st = lock_state(&sched);
+        loop {
+            if let Some(e) = st.end.clone() {
+                break (e, Sched::snapshot(&st), st.trace.clone(), st.steps);
+            }
+            let (g, _) = sched.cv.wait_timeout(st, Duration::from_millis(50)).unwrap_or_else(|e| e.into_inner());
+            st = g;
+            if st.end.is_none() && st.last_progress.elapsed() > stuck_after {
+                sched.finish(&mut st, End::Stuck);
+            }
+        }
+    };
+    let normal = matches!(end, End::Done | End::BodyPanicked(_));
+    if normal {
+        handle.join().ok();
+    }
+    // torn-down threads unwind out of the shim and exit; give them a moment
+    let t0 = Instant::now();
+    let floor = if normal { 0 } else { 1 };
+    while sched.live.load(Ordering::SeqCst) > floor && t0.elapsed() < Duration::from_secs(2) {
+        std_thread::sleep(Duration::from_micros(50));
+    }
+    let leaked = sched.live.load(Ordering::SeqCst).saturating_sub(floor);
+    let value = value.lock().unwrap_or_else(|e| e.into_inner()).take();
+    Outcome { end, value, threads, trace, steps, leaked }
+}
+
+fn panic_text(p: &Box<dyn Any + Send>) -> String {
+    if let Some(s) = p.downcast_ref::<&str>() {
+        s.to_string()
+    } else if let Some(s) = p.downcast_ref::<String>() {
+        s.clone()
+    } else {
+        "<non-string panic payload>".into()
+    }
+}
+
+/// True if the calling thread is a controlled thread of a running exploration.
+pub fn controlled() -> bool {
+    ctl().is_some()
+}
+
+/// A scheduling point without any effect (lets harness-supplied tasks overlap).
+pub fn yield_now() {
+    if let Some((s, me)) = ctl() {
+        s.switch(me, TState::Runnable, "yield");
+    } else {
+        std_thread::yield_now();
+    }
+}
+
+/// Blocks the calling thread until `cond` holds; re-evaluated after every [`notify`].
+pub fn block_until(cond: impl Fn() -> bool) {
+    if let Some((s, me)) = ctl() {
+        if blocking_op(&s, me, Res::Cond, "block_until", || if cond() { Some(()) } else { None }).is_some() {
+            return;
+        }
+    }
+    while !cond() {
+        std_thread::sleep(Duration::from_micros(100));
+    }
+}
+
+/// Wakes every thread blocked in [`block_until`].
+pub fn notify() {
+    if let Some((s, _)) = ctl() {
+        s.wake(Res::Cond);
+    }
+}
+
+// ------------------------------------------------------------------------------------------------
+// Mutex
+// ------------------------------------------------------------------------------------------------
+
+/// `std::sync::Mutex` with scheduling points.
+pub struct Mutex<T> {
+    inner: StdMutex<T>,
+}
+
+/// Guard of [`Mutex`].
+pub struct MutexGuard<'a, T> {
+    inner: Option<StdGuard<'a, T>>,
+    key: usize,
+}
+
+impl<T> Mutex<T> {
+    /// See `std::sync::Mutex::new`.
+    pub fn new(t: T) -> Self {
+        Self { inner: StdMutex::new(t) }
+    }
+
+    fn key(&self) -> usize {
+        self as *const _ as usize
+    }
+
+    fn wrap<'a>(&'a self, r: LockResult<StdGuard<'a, T>>) -> LockResult<MutexGuard<'a, T>> {
+        let key = self.key();
+        match r {
+            Ok(g) => Ok(MutexGuard { inner: Some(g), key }),
+            Err(p) => Err(PoisonError::new(MutexGuard { inner: Some(p.into_inner()), key })),
+        }
+    }
+
+    /// See `std::sync::Mutex::lock`.
+    pub fn lock(&self) -> LockResult<MutexGuard<'_, T>> {
+        match ctl() {
+            None => self.wrap(self.inner.lock()),
+            Some((s, me)) => {
+                let r = blocking_op(&s, me, Res::Mutex(self.key()), "lock", || match self.inner.try_lock() {
+                    Ok(g) => Some(Ok(g)),
+                    Err(TryLockError::Poisoned(p)) => Some(Err(PoisonError::new(p.into_inner()))),
+                    Err(TryLockError::WouldBlock) => None,
+                });
+                match r {
+                    Some(r) => self.wrap(r),
+                    None => self.wrap(self.inner.lock()),
+                }
+            }
+        }
+    }
+
+    /// See `std::sync::Mutex::try_lock`.
+    pub fn try_lock(&self) -> TryLockResult<MutexGuard<'_, T>> {
+        if let Some((s, me)) = ctl() {
+            s.switch(me, TState::Runnable, "try_lock");
+        }
+        let key = self.key();
+        match self.inner.try_lock() {
+            Ok(g) => Ok(MutexGuard { inner: Some(g), key }),
+            Err(TryLockError::Poisoned(p)) => Err(TryLockError::Poisoned(PoisonError::new(MutexGuard { inner: Some(p.into_inner()), key }))),
+            Err(TryLockError::WouldBlock) => Err(TryLockError::WouldBlock),
+        }
+    }
+
+    /// See `std::sync::Mutex::is_poisoned`.
+    pub fn is_poisoned(&self) -> bool {
+        self.inner.is_poisoned()
+    }
+
+    /// See `std::sync::Mutex::into_inner`.
+    pub fn into_inner(self) -> LockResult<T> {
+        self.inner.into_inner()
+    }
+
+    /// See `std::sync::Mutex::get_mut`.
+    pub fn get_mut(&mut self) -> LockResult<&mut T> {
+        self.inner.get_mut()
+    }
+}
+
+impl<T: Default> Default for Mutex<T> {
+    fn default() -> Self {
+        Self::new(T::default())
+    }
+}
+
+impl<T> Deref for MutexGuard<'_, T> {
+    type Target = T;
+    fn deref(&self) -> &T {
+        self.inner.as_ref().unwrap()
+    }
+}
+
+impl<T> DerefMut for MutexGuard<'_, T> {
+    fn deref_mut(&mut self) -> &mut T {
+        self.inner.as_mut().unwrap()
+    }
+}
+
+impl<T> Drop for MutexGuard<'_, T> {
+    fn drop(&mut self) {
+        drop(self.inner.take());
+        if let Some((s, _)) = ctl() {
+            s.wake(Res::Mutex(self.key));
+        }
+    }
+}
+
+impl<T: std::fmt::Debug> std::fmt::Debug for MutexGuard<'_, T> {
+    fn fmt(&self, f: &mut std::fmt::Formatter<'_>) -> std::fmt::Result {
+        self.inner.as_ref().unwrap().fmt(f)
+    }
+}
+
+// ------------------------------------------------------------------------------------------------
+// mpsc
+// ------------------------------------------------------------------------------------------------
+
+struct ChanShared {
+    senders: AtomicUsize,
+}
+
+/// `std::sync::mpsc::Sender` with scheduling points.
+pub struct Sender<T> {
+    inner: Option<std_mpsc::Sender<T>>,
+    shared: Arc<ChanShared>,
+}
+
+/// `std::sync::mpsc::Receiver` with scheduling points.
+pub struct Receiver<T> {
+    inner: std_mpsc::Receiver<T>,
+    shared: Arc<ChanShared>,
+}
+
+/// See `std::sync::mpsc::channel`.
+pub fn channel<T>() -> (Sender<T>, Receiver<T>) {
+    let (tx, rx) = std_mpsc::channel();
+    let shared = Arc::new(ChanShared { senders: AtomicUsize::new(1) });
+    (Sender { inner: Some(tx), shared: shared.clone() }, Receiver { inner: rx, shared })
+}
+
+fn chan_key(shared: &Arc<ChanShared>) -> usize {
+    Arc::as_ptr(shared) as usize
+}
+
+impl<T> Sender<T> {
+    /// See `std::sync::mpsc::Sender::send`.
+    pub fn send(&self, t: T) -> Result<(), SendError<T>> {
+        let c = ctl();
+        if let Some((s, me)) = &c {
+            s.switch(*me, TState::Runnable, "send");
+        }
+        let r = self.inner.as_ref().unwrap().send(t);
+        if let Some((s, _)) = &c {
+            s.wake(Res::Chan(chan_key(&self.shared)));
+        }
+        r
+    }
+}
+
+impl<T> Clone for Sender<T> {
+    fn clone(&self) -> Self {
+        self.shared.senders.fetch_add(1, Ordering::SeqCst);
+        Self { inner: self.inner.clone(), shared: self.shared.clone() }
+    }
+}
+
+impl<T> Drop for Sender<T> {
+    fn drop(&mut self) {
+        drop(self.inner.take());
+        if self.shared.senders.fetch_sub(1, Ordering::SeqCst) == 1 {
+            if let Some((s, _)) = ctl() {
+                s.wake(Res::Chan(chan_key(&self.shared)));
+            }
+        }
+    }
+}
+
+impl<T> Receiver<T> {
+    /// See `std::sync::mpsc::Receiver::recv`.
+    pub fn recv(&self) -> Result<T, RecvError> {
+        match ctl() {
+            None => self.inner.recv(),
+            Some((s, me)) => {
+                let r = blocking_op(&s, me, Res::Chan(chan_key(&self.shared)), "recv", || match self.inner.try_recv() {
+                    Ok(v) => Some(Ok(v)),
+                    Err(TryRecvError::Disconnected) => Some(Err(RecvError)),
+                    Err(TryRecvError::Empty) => None,
+                });
+                match r {
+                    Some(r) => r,
+                    None => self.inner.recv(),
+                }
+            }
+        }
+    }
+
+    /// See `std::sync::mpsc::Receiver::try_recv`.
+    pub fn try_recv(&self) -> Result<T, TryRecvError> {
+        if let Some((s, me)) = ctl() {
+            s.switch(me, TState::Runnable, "try_recv");
+        }
+        self.inner.try_recv()
+    }
+
+    /// See `std::sync::mpsc::Receiver::recv_timeout`. Under an exploration the timeout elapses only when no
+    /// other controlled thread can run.
+    pub fn recv_timeout(&self, timeout: Duration) -> Result<T, RecvTimeoutError> {
+        match ctl() {
+            None => self.inner.recv_timeout(timeout),
+            Some((s, me)) => {
+                s.switch(me, TState::Runnable, "recv_timeout");
+                loop {
+                    match self.inner.try_recv() {
+                        Ok(v) => return Ok(v),
+                        Err(TryRecvError::Disconnected) => return Err(RecvTimeoutError::Disconnected),
+                        Err(TryRecvError::Empty) => {}
+                    }
+                    if ctl().is_none() {
+                        return self.inner.recv_timeout(timeout);
+                    }
+                    if s.switch(me, TState::TimedBlocked(Res::Chan(chan_key(&self.shared))), "recv_timeout") {
+                        return Err(RecvTimeoutError::Timeout);
+                    }
+                }
+            }
+        }
+    }
+
+    /// See `std::sync::mpsc::Receiver::iter`.
+    pub fn iter(&self) -> Iter<'_, T> {
+        Iter { rx: self }
+    }
+
+    /// See `std::sync::mpsc::Receiver::try_iter`.
+    pub fn try_iter(&self) -> TryIter<'_, T> {
+        TryIter { rx: self }
+    }
+}
+
+/// Blocking iterator over a [`Receiver`].
+pub struct Iter<'a, T> {
+    rx: &'a Receiver<T>,
+}
+
+impl<T> Iterator for Iter<'_, T> {
+    type Item = T;
+    fn next(&mut self) -> Option<T> {
+        self.rx.recv().ok()
+    }
+}
+
+/// Non-blocking iterator over a [`Receiver`].
+pub struct TryIter<'a, T> {
+    rx: &'a Receiver<T>,
+}
+
+impl<T> Iterator for TryIter<'_, T> {
+    type Item = T;
+    fn next(&mut self) -> Option<T> {
+        self.rx.try_recv().ok()
+    }
+}
+
+impl<'a, T> IntoIterator for &'a Receiver<T> {
+    type Item = T;
+    type IntoIter = Iter<'a, T>;
+    fn into_iter(self) -> Iter<'a, T> {
+        self.iter()
+    }
+}
+
+/// Owning blocking iterator over a [`Receiver`].
+pub struct IntoIter<T> {
+    rx: Receiver<T>,
+}
+
+impl<T> Iterator for IntoIter<T> {
+    type Item = T;
+    fn next(&mut self) -> Option<T> {
+        self.rx.recv().ok()
+    }
+}
+
+impl<T> IntoIterator for Receiver<T> {
+    type Item = T;
+    type IntoIter = IntoIter<T>;
+    fn into_iter(self) -> IntoIter<T> {
+        IntoIter { rx: self }
+    }
+}
+
+// ------------------------------------------------------------------------------------------------
+// threads
+// ------------------------------------------------------------------------------------------------
+
+/// `std::thread::JoinHandle` with scheduling points.
+pub struct JoinHandle<T> {
+    inner: std_thread::JoinHandle<T>,
+    ctl: Option<(Arc<Sched>, usize)>,
+}
+
+impl<T> JoinHandle<T> {
+    /// See `std::thread::JoinHandle::join`.
+    pub fn join(self) -> std_thread::Result<T> {
+        if let (Some((s, me)), Some((s2, target))) = (ctl(), &self.ctl) {
+            if Arc::ptr_eq(&s, s2) {
+                let target = *target;
+                let _ = blocking_op(&s, me, Res::Join(target), "join", || if s.is_finished(target) { Some(()) } else { None });
+            }
+        }
+        self.inner.join()
+    }
+
+    /// See `std::thread::JoinHandle::is_finished`.
+    pub fn is_finished(&self) -> bool {
+        if let (Some((s, me)), Some((s2, target))) = (ctl(), &self.ctl) {
+            if Arc::ptr_eq(&s, s2) {
+                s.switch(me, TState::Runnable, "is_finished");
+                return s.is_finished(*target);
+            }
+        }
+        self.inner.is_finished()
+    }
+
+    /// See `std::thread::JoinHandle::thread`.
+    pub fn thread(&self) -> &std_thread::Thread {
+        self.inner.thread()
+    }
+}
+
+/// `std::thread::Builder` whose threads join the spawning thread's exploration.
+pub struct Builder {
+    inner: std_thread::Builder,
+    name: Option<String>,
+}
+
+impl Builder {
+    /// See `std::thread::Builder::new`.
+    #[allow(clippy::new_without_default)]
+    pub fn new() -> Self {
+        Self { inner: std_thread::Builder::new(), name: None }
+    }
+
+    /// See `std::thread::Builder::name`.
+    pub fn name(self, name: String) -> Self {
+        Self { inner: self.inner.name(name.clone()), name: Some(name) }
+    }
+
+    /// See `std::thread::Builder::stack_size`.
+    pub fn stack_size(self, size: usize) -> Self {
+        Self { inner: self.inner.stack_size(size), name: self.name }
+    }
+
+    /// See `std::thread::Builder::spawn`.
+    pub fn spawn<F, T>(self, f: F) -> io::Result<JoinHandle<T>>
+    where
+        F: FnOnce() -> T + Send + 'static,
+        T: Send + 'static,
+    {
+        match ctl() {
+            None => Ok(JoinHandle { inner: self.inner.spawn(f)?, ctl: None }),
+            Some((s, me)) => {
+                s.switch(me, TState::Runnable, "spawn");
+                if ctl().is_none() {
+                    return Ok(JoinHandle { inner: self.inner.spawn(f)?, ctl: None });
+                }
+                let tid = s.register(self.name.clone());
+                let s2 = s.clone();
+                let r = self.inner.spawn(move || {
+                    CUR.with(|c| *c.borrow_mut() = Some((s2.clone(), tid)));
+                    let _guard = ExitGuard(s2.clone(), tid);
+                    if !s2.wait_first(tid) {
+                        resume_unwind(Box::new(VerifAbort));
+                    }
+                    f()
+                });
+                match r {
+                    Ok(inner) => Ok(JoinHandle { inner, ctl: Some((s, tid)) }),
+                    Err(e) => {
+                        let mut st = lock_state(&s);
+                        st.threads[tid].state = TState::Finished;
+                        s.live.fetch_sub(1, Ordering::SeqCst);
+                        Err(e)
+                    }
+                }
+            }
+        }
+    }
+}
+
+/// See `std::thread::spawn`.
+pub fn spawn<F, T>(f: F) -> JoinHandle<T>
+where
+    F: FnOnce() -> T + Send + 'static,
+    T: Send + 'static,
+{
+    Builder::new().spawn(f).expect("failed to spawn thread")
+}
